@@ -299,8 +299,8 @@ PROPERTIES['C07'] = {
     'explanation': 'The optimistic lock is one atomic word; mutual exclusion of write guards, snapshot consistency of validated read sections, upgrade-iff-unchanged and finality of the obsolete state follow from five premises by a short written argument '
                    '(DESIGN.md, C07: free words strictly increase by 4, the write bit is set between a successful upgrade and the unlock, the obsolete word is odd and terminal; Boehm\'s seqlock argument for the orders). This check discharges the premises on the source: '
                    'LW-1 the word is written only by {CAS w -> w.set_locked_bit(), store old+2, store obsolete constant}, reachable only through write_guard, which deactivates itself; LW-2 value facts of is_free / is_write_locked / is_obsolete / set_locked_bit by evaluating the expression trees over the finite quotient (v mod 4, v = obsolete word); '
-                   'LW-3 recorded words are free words (try_read_lock path conditions judged by admitted word classes; rehydrate takes only rcs.get() values); LW-7 every link of the guard -> lock -> word chain makes exactly its own transition on every path (unlock_and_obsolete really obsoletes, write_unlock stores old+2, write_unlock_and_obsolete stores the obsolete constant); LW-8 moving a read section takes over lock AND version of the source on every path (an assignment from a must-restart section cannot leave the previous snapshot behind); LW-4 memory-order table (acquire load / acquire fence before the validating load / acquire CAS / release stores, protected fields are std::atomic); LW-5 whole-word equality in check / try_read_unlock.',
-    'decides': 'all premises of the lock-level argument (LW-1..LW-5, LW-7, LW-8), every configuration in the thorough tier',
+                   'LW-3 recorded words are free words (try_read_lock path conditions judged by admitted word classes; rehydrate takes only rcs.get() values); LW-7 every link of the guard -> lock -> word chain makes exactly its own transition on every path (unlock_and_obsolete really obsoletes, write_unlock stores old+2, write_unlock_and_obsolete stores the obsolete constant); LW-8 moving a read section takes over lock AND version of the source on every path (an assignment from a must-restart section cannot leave the previous snapshot behind); LW-9 the section-level check / try_read_unlock are the lock-level ones applied to the section\'s own lock and recorded version and return that verdict unchanged, must_restart of section and guard is lock == nullptr; LW-4 memory-order table (acquire load / acquire fence before the validating load / acquire CAS / release stores, protected fields are std::atomic); LW-5 whole-word equality in check / try_read_unlock.',
+    'decides': 'all premises of the lock-level argument (LW-1..LW-5, LW-7..LW-9), every configuration in the thorough tier',
     'does_not_decide': 'the C++ memory-model argument itself (trusted: Boehm 2012), 64-bit wrap of the version; the use of the lock by the tree (C03/C14)',
     'trusted_base': ['clang 14 front end', 'usa extractor and rule engine', 'written argument in DESIGN.md section 6 (C07)', 'C++11 memory model / seqlock argument (Boehm, MSPC 2012)', 'the version counter does not wrap in 2^62 write cycles'],
     'assumptions': ['UNODB_DETAIL_THREAD_SANITIZER builds (fence replaced by TSan annotations) are outside the configuration matrix'],
